@@ -61,6 +61,11 @@ TEXT = {
   level_text="Generated acquire/close/pending-call/send/settle sequences on one shared address through the real ListenerManager (TCP and UDP sockets); invariants over the recorded history decide exactly-once delivery, nothing delivered to a handle closed before the call started, ErrClosed for pending and later calls, socket release, absence of leftover goroutines and closing of orphaned connections.",
   level_note="The Go scheduler is not controlled: racing deliveries are sampled by running every case four times; absence of other interleavings is not established.",
  ),
+ "C13": dict(
+  technique="property-based schedule exploration (rapid): generated concurrent listen/close plans, repeated, with a watchdog and a usability post-condition",
+  level_text="Generated per-goroutine plans of ListenStream/ListenPacket/Close calls on shared addresses are run concurrently 50 times each against the real ListenerManager; every call must return (5 s watchdog) and succeed, and the manager must accept a sequential listen+close on every address afterwards. A hit is classified by the blocked mutex sites.",
+  level_note="The harness does not own the Go scheduler; interleavings are sampled by repetition. Not a model-checking result.",
+ ),
 }
 def _na():
     from checks_table import CHECKS
